@@ -56,6 +56,35 @@ Definition entry_ok (groups : list (list string)) (items : list string) (e : ent
 Definition groups_ok (groups : list (list string)) : Prop :=
   Forall (fun g => NoDup g /\ g <> []) groups /\ NoDup (List.concat groups).
 
+(* what the constructor's plan guarantees: every entry names the right loader for the positions it fills, and every
+   position of the mode is filled in one of the three ways *)
+Definition plan_ok (groups : list (list string)) (items : list string) (plan : list entry) : Prop :=
+  Forall (entry_ok groups items) plan /\
+  forall p, (p < List.length items)%nat -> writers_shape items p (writers p plan).
+
+(* without declared groups every item is its own loader call, in mode order *)
+Definition plain_plan (items : list string) : list entry :=
+  map (fun ps => (snd ps, Plain (fst ps))) (combine (seq 0 (List.length items)) items).
+
+(* zip(fused_items, fused_to_idxs) is empty when nothing is declared: the calls are then the items themselves *)
+Definition eff_plan (items : list string) (plan : list entry) : list entry :=
+  match plan with [] => plain_plan items | _ => plan end.
+
+(* components of a sample as a list *)
+Definition out_list {value} (o : out value) : list (option value) :=
+  match o with Bare x => [x] | Tuple l => l end.
+Definition is_bare {value} (o : out value) : bool := match o with Bare _ => true | Tuple _ => false end.
+
+(* " ".join(items) *)
+Fixpoint join_space (items : list string) : string :=
+  match items with
+  | [] => EmptyString
+  | [s] => s
+  | s :: r => (s ++ " " ++ join_space r)%string
+  end.
+Fixpoint no_space (s : string) : bool :=
+  match s with EmptyString => true | String c r => negb (Ascii.eqb c " "%char) && no_space r end.
+
 (* ---------- the plan by occurrence counting ---------- *)
 Fixpoint occ (s : string) (l : list string) : nat :=
   match l with [] => O | x :: r => (if String.eqb s x then 1 else 0) + occ s r end.
@@ -140,18 +169,41 @@ Section Spec.
   Definition spec_propagate (st : stack value) (names : list string) (return_ctx : bool) : bool :=
     return_ctx || s_req_ctx value st || existsb (fun s => is_ctx (classify s)) names.
 
-  (* sample idx (already a valid non-negative index) of the wrapped dataset *)
-  Definition spec_sample (st : stack value) (items : list string) (return_ctx : bool) (idx : Z) : res value :=
-    let plan := spec_plan (s_fused_ops value st) items in
+  (* one item -> bare value, several -> tuple *)
+  Definition wrap_out (comps : list (option value)) : out value :=
+    match comps with [x] => Bare x | _ => Tuple comps end.
+
+  (* sample idx (already a valid non-negative index) when the loader calls and the positions they fill are [plan]:
+     the calls happen left to right on one ctx that starts empty (or None when no ctx is propagated); position p holds
+     what the last call filling p delivered *)
+  Definition sample_with_plan (st : stack value) (items : list string) (plan : list entry)
+             (return_ctx : bool) (idx : Z) : res value :=
     let names := map fst plan in
     let c0 : octx value := if spec_propagate st names return_ctx then Some [] else None in
     match thread st names idx c0 with
     | None => RErr
     | Some (vals, c) =>
         let comps := map (fun p => last_write (combine (map snd plan) vals) p None) (seq 0 (List.length items)) in
-        let o := match comps with [x] => Bare x | _ => Tuple comps end in
-        if return_ctx then RItemsCtx o c else RItems o
+        if return_ctx then RItemsCtx (wrap_out comps) c else RItems (wrap_out comps)
     end.
+
+  (* sample idx of the wrapped dataset *)
+  Definition spec_sample (st : stack value) (items : list string) (return_ctx : bool) (idx : Z) : res value :=
+    sample_with_plan st items (spec_plan (s_fused_ops value st) items) return_ctx idx.
+
+  (* where position p of a sample comes from: the k-th loader call of THIS sample -- made on the ctx the k earlier calls
+     of this sample left, starting from the fresh ctx c0 -- is the loader of the item at p (own load) or the joint
+     loader of a declared group whose j-th member is the item at p (component j) *)
+  Definition delivered (st : stack value) (items : list string) (plan : list entry) (idx : Z) (c0 : octx value)
+             (p : nat) (r : option value) : Prop :=
+    exists k name sl v vs ct ct',
+      nth_error plan k = Some (name, sl) /\
+      thread st (firstn k (map fst plan)) idx c0 = Some (vs, ct) /\
+      call value vint st (classify name) idx ct = Some (v, ct') /\
+      ((sl = Plain p /\ nth_error items p = Some name /\ r = Some v) \/
+       (exists idxs g j op, sl = Fused idxs /\ In g (s_fused_ops value st) /\ name = String.concat "" g /\
+          nth_error idxs j = Some p /\ nth_error g j = Some op /\ nth_error items p = Some op /\
+          r = Some (proj v j))).
 
   (* ---------- the simple reading for loaders whose value does not depend on ctx ---------- *)
   (* value_of s i: what item s of sample i is *)
